@@ -1,5 +1,6 @@
 import FormulaicVerif.Engines.Json
 import FormulaicVerif.Model.Replay
+import FormulaicVerif.Model.CallArgs
 /-! Engine `c04`: runs `Model.Replay.materialize` — a fit on the training rows of a pool, then the
 fitted spec (also after `getstate`/`restore`) on every follow-up selection of pool rows.
 Rationals travel as `"p/q"` strings (every float of the implementation is a dyadic rational). -/
@@ -116,13 +117,53 @@ partial def exprOf (j : Json) : Expr :=
   | "elem" => .elem (jstr j "fn") (exprOf (jval j "a"))
   | _ => .call (jstr j "text") (exprOf (jval j "a"))
 
+def pyLitOf (j : Json) : CallArgs.PyLit :=
+  match j with
+  | .null => .none
+  | .bool b => .bool b
+  | .str s => .num (ratOfStr s)
+  | j =>
+    match j.getObjVal? "s" with
+    | .ok (.str s) => .str s
+    | _ => .num (Rat.ofInt (asInt j))
+
+/-- the transform a call node denotes: from the call AS WRITTEN (`fn`, `pos`, `kw`), bound against the live
+signature table `Gen.statefulSignatures` by the model (`CallArgs.trOfCall`); nodes without `fn` (the streams that
+call a transform directly) carry the resolved description `tr` -/
+def trOfNode (j : Json) : Except String Tr :=
+  match j.getObjVal? "fn" with
+  | .ok (.str fn) =>
+    let kw := (jarr j "kw").map (fun p => match asArr p with
+      | [k, v] => (asStr k, pyLitOf v)
+      | _ => ("", CallArgs.PyLit.none))
+    match CallArgs.trOfCall Gen.statefulSignatures fn ((jarr j "pos").map pyLitOf) kw with
+    | .ok tr => .ok tr
+    | .error e => .error ("MODEL-BIND-ERROR " ++ fn ++ ": " ++ reprStr e)
+  | _ => .ok (trOf (jval j "tr"))
+
 /-- the call nodes of an expression tree: (text, transform, external routines) -/
 partial def callsOf (roots : List Rat) (j : Json) : List (String × Tr × Params) :=
   let sub := (match j.getObjVal? "a" with | .ok a => callsOf roots a | _ => []) ++
     (match j.getObjVal? "b" with | .ok b => callsOf roots b | _ => [])
   if jstr j "op" == "call" then
-    (jstr j "text", trOf (jval j "tr"), paramsOf roots (jval j "params")) :: sub
+    match trOfNode j with
+    | .ok tr => (jstr j "text", tr, paramsOf roots (jval j "params")) :: sub
+    | .error _ => sub
   else sub
+
+/-- the first call node whose arguments do not bind (reported instead of a fit) -/
+partial def bindErrorOf (j : Json) : Option String :=
+  let here := if jstr j "op" == "call" then (match trOfNode j with | .error e => some e | .ok _ => none) else none
+  match here with
+  | some e => some e
+  | none =>
+    match (match j.getObjVal? "a" with | .ok a => bindErrorOf a | _ => none) with
+    | some e => some e
+    | none => (match j.getObjVal? "b" with | .ok b => bindErrorOf b | _ => none)
+
+def envBindError (j : Json) : Option String :=
+  (jarr j "factors").findSome? (fun f =>
+    if jstr (jval f "sem") "k" == "num" then bindErrorOf (jval (jval f "sem") "e") else none)
 
 def contrastOf (j : Json) : Contrasts.Contrast :=
   match jstr j "c" with
@@ -150,10 +191,16 @@ def envOf (j : Json) : Env :=
   let callT := ((jarr j "factors").flatMap (fun f =>
       if jstr (jval f "sem") "k" == "num" then callsOf roots (jval (jval f "sem") "e") else [])).map
     (fun c => (stateKey norm c.1, c.2))
+  -- `C(var, levels=[…])`: the nominated levels, by factor expression
+  let levT : List (String × List Contrasts.Label) := (jarr j "factors").filterMap (fun f =>
+    match (jval f "sem").getObjVal? "levels" with
+    | .ok (.arr a) => some (jstr f "expr", a.toList.filterMap labelOf)
+    | _ => none)
   { norm := norm
     elem := fun f x => (elemT.find? (fun p => p.1.1 == f && p.1.2 == x)).map (·.2)
     sem := fun e => semT.lookup e
-    call := fun k => callT.lookup k }
+    call := fun k => callT.lookup k
+    levels := fun e => levT.lookup e }
 
 /-! ### printing -/
 
@@ -172,6 +219,7 @@ def tErrName : TErr → String
   | .nullRow => "not-modelled:null-row"
   | .ragged => "MODEL-RAGGED"
   | .stateShape => "not-modelled:state-shape"
+  | .sparseShape => "ValueError"
 
 def rErrName : RErr → String
   | .nameError => "FactorEvaluationError"
@@ -181,6 +229,9 @@ def rErrName : RErr → String
   | .scope .fuel => "MODEL-OUT-OF-FUEL"
   | .encoding => "FactorEncodingError"
   | .badOutput => "FormulaMaterializationError"
+  | .dataMismatch => "DataMismatchWarning"
+  | .kindMismatch => "MODEL-KIND-MISMATCH-ESCAPED"
+  | .evalError => "FactorEvaluationError"
   | .notModelled w => "not-modelled:" ++ w
 
 def entryJ (e : Entry) : Json := Json.mkObj [("name", Json.str e.name), ("values", ratsJ e.col)]
@@ -211,6 +262,9 @@ def tstateJ : TState → Json
   | .cs s => Json.mkObj [("kind", "cs"), ("lower", ratJ s.lower), ("upper", ratJ s.upper), ("knots", ratsJ s.knots),
       ("cyclic", Json.bool s.cyclic),
       ("constraints", match s.constraints with | none => Json.null | some c => jlist (c.map ratsJ))]
+  | .keyed m => Json.mkObj [("kind", "keyed"),
+      ("states", jlist (m.map (fun p => jlist [Json.str p.1.text, scaleStateJ p.2])))]
+  | .arr ss => Json.mkObj [("kind", "arr"), ("states", jlist (ss.map scaleStateJ))]
 
 def specJ (s : Spec) : Json :=
   Json.mkObj [
@@ -246,12 +300,67 @@ def handleDict (j : Json) : Json :=
         ("replays", jlist ((jarr j "followups").map one))]
   | _ => jerr "not-modelled:dict"
 
+/-- `op = "sparse"`: a `scale`-family transform called on a `scipy.sparse` matrix (`callSparse`): a fit from the
+empty state, then the recorded state on selections of rows.  `{tr, roots, cols: [[x…]…], followups: [[i…]…]}` -/
+def handleSparse (j : Json) : Json :=
+  let roots := rats j "roots"
+  let cols : List (List Rat) := (jarr j "cols").map (fun c => (asArr c).map ratOf)
+  match trOf (jval j "tr") with
+  | .scale ca sa dd =>
+    let t := scaleT (sqrtOf roots) ca sa dd
+    let resJ (r : Except TErr (List Rat × Scale.State Rat)) : Json :=
+      match r with
+      | .error e => jerr (tErrName e)
+      | .ok (out, st) => Json.mkObj [("res", ratsJ out), ("state", scaleStateJ st)]
+    let fit := callSparse t none cols
+    let st : Option (Scale.State Rat) := match fit with | .ok (_, s) => some s | .error _ => none
+    Json.mkObj [("fit", resJ fit),
+      ("replays", jlist ((jarr j "followups").map (fun fu =>
+        resJ (callSparse t st (cols.map (Replay.select ((asArr fu).map asNat)))))))]
+  | _ => jerr "not-modelled:sparse"
+
+/-- `op = "session"`: two (or more) specs fitted on their own training rows, then a HISTORY of
+`get_model_matrix(spec_i)` calls on ONE materializer object built for the rows `rows`
+(`Mat.run`: the object's cache is threaded through the calls, failing calls included).
+`{columns, present, pool, declared, factors, norm, elem, roots,
+  fits: [{terms, efr, output, cluster, train, factors, norm, elem, roots}], rows: [i…],
+  calls: [{spec: i, strict: bool}]}` -/
+def handleSession (j : Json) : Json :=
+  let cols := strs j "columns"
+  let pool := (jarr j "pool").map (rowOf cols)
+  let declared := (jarr j "declared").map (fun p => match asArr p with
+    | [k, ls] => (asStr k, (asArr ls).filterMap labelOf)
+    | _ => ("", []))
+  let frame (is : List Nat) : Frame := { columns := cols, declared := declared, rows := Replay.select is pool }
+  -- the data of the materializer object may lack a column of the pool (`present`)
+  let dataFrame (is : List Nat) : Frame := { columns := strs j "present", declared := declared, rows := Replay.select is pool }
+  let env := envOf j
+  let fitOne (fj : Json) : Except RErr (Spec × List Entry) :=
+    let terms := (jarr fj "terms").map (fun t => (asArr t).map asStr)
+    let output : Option String := match jval fj "output" with | .str o => some o | _ => none
+    -- each fit with the external-routine results (quantile knots …) of its own training rows
+    materialize (envOf fj) (Spec.fresh terms (jbool fj "efr") output (if jbool fj "cluster" then "numerical_factors" else "none"))
+      (frame ((jarr fj "train").map asNat))
+  let fits := (jarr j "fits").map fitOne
+  let outJ (r : Except RErr (Spec × List Entry)) : Json :=
+    match r with
+    | .error e => jerr (rErrName e)
+    | .ok (s, m) => Json.mkObj [("columns", matrixJ m), ("spec", specJ s)]
+  let specs : List Spec := fits.filterMap (fun r => match r with | .ok (s, _) => some s | .error _ => none)
+  if specs.length != fits.length then Json.mkObj [("fits", jlist (fits.map outJ)), ("calls", jlist [])] else
+  let calls : List (Bool × Spec) := (jarr j "calls").filterMap (fun cj =>
+    (specs[jnat cj "spec"]?).map (fun s => (jbool cj "strict", s)))
+  Json.mkObj [("fits", jlist (fits.map outJ)),
+    ("calls", jlist ((Mat.run env (dataFrame ((jarr j "rows").map asNat)) [] calls).map outJ))]
+
 /-- request:
 `{columns, pool: [[cell…]…], train: [i…], followups: [{rows: [i…], pickle: bool}…],
   terms, factors: [{expr, sem}], norm, elem, roots, efr, output, cluster}` -/
 def handle (j : Json) : Json :=
   if jstr j "op" == "noop" then Json.mkObj [] else
   if jstr j "op" == "dict" then handleDict j else
+  if jstr j "op" == "session" then handleSession j else
+  if jstr j "op" == "sparse" then handleSparse j else
   let cols := strs j "columns"
   let pool := (jarr j "pool").map (rowOf cols)
   let declared := (jarr j "declared").map (fun p => match asArr p with
@@ -262,23 +371,54 @@ def handle (j : Json) : Json :=
   let terms := (jarr j "terms").map (fun t => (asArr t).map asStr)
   let output : Option String := match jval j "output" with | .str o => some o | _ => none
   let spec0 := Spec.fresh terms (jbool j "efr") output (if jbool j "cluster" then "numerical_factors" else "none")
+  match envBindError j with
+  | some e => Json.mkObj [("fit", jerr e)]
+  | none =>
   match materialize env spec0 (frame ((jarr j "train").map asNat)) with
   | .error e => Json.mkObj [("fit", jerr (rErrName e))]
   | .ok (spec, m) =>
     -- the cached properties that live in the instance `__dict__` next to the dataclass fields
-    let inst : PyDict := spec.toDict ++ [("column_names", .derived spec.columnNames),
-      ("column_indices", .derived spec.columnNames)]
+    -- the instance `__dict__` as the implementation reports it (its keys, in order): the dataclass fields and the
+    -- cached properties that have been read
+    let fieldVals := spec.toDict
+    let instKeys := strs j "inst_keys"
+    let inst : PyDict :=
+      if instKeys.isEmpty then fieldVals ++ [("column_names", .derived spec.columnNames)]
+      else instKeys.map (fun k => match fieldVals.lookup k with
+        | some v => (k, v)
+        | none => (k, .derived spec.columnNames))
     let pickled : Option Spec := Spec.ofDict (restore (getstate inst))
     let one (fu : Json) : Json :=
       let s : Option Spec := if jbool fu "pickle" then pickled else some spec
       match s with
       | none => jerr "MODEL-PICKLE-LOST-A-FIELD"
       | some s =>
-        match materialize env s (frame ((jarr fu "rows").map asNat)) with
+        -- `get_model_matrix(data, output=…)`: `spec.update(output=…)` first
+        let s := match jval fu "output" with
+          | .str o => { s with output := some o }
+          | _ => s
+        -- a hand-edited spec: the recorded categories of one factor replaced
+        let s := match fu.getObjVal? "edit" with
+          | .ok ed => { s with encoderState := setKey s.encoderState (jstr ed "factor") ((jarr ed "categories").filterMap labelOf) }
+          | _ => s
+        -- the follow-up data: a selection of pool rows, possibly without one column, possibly with one column of
+        -- the other kind (strings for numbers / numbers for categories)
+        let fr0 := frame ((jarr fu "rows").map asNat)
+        let fr1 : Frame := match jval fu "drop" with
+          | .str c => { fr0 with columns := fr0.columns.filter (· != c) }
+          | _ => fr0
+        let fr : Frame := match jval fu "swap" with
+          | .str c => { fr1 with rows := fr1.rows.map (fun r => r.map (fun kv =>
+              if kv.1 == c then (kv.1, match kv.2 with
+                | .num _ => Cell.lab (some (.str "~"))
+                | .lab _ => Cell.num 0) else kv)) }
+          | _ => fr1
+        match materialize env s fr with
         | .error e => jerr (rErrName e)
         | .ok (s', m') =>
           Json.mkObj [("columns", matrixJ m'), ("spec", specJ s')]
     Json.mkObj [("fit", Json.mkObj [("columns", matrixJ m), ("spec", specJ spec)]),
-      ("replays", jlist ((jarr j "followups").map one)), ("field_names", jstrs fieldNames)]
+      ("replays", jlist ((jarr j "followups").map one)), ("field_names", jstrs fieldNames),
+      ("getstate_keys", jstrs ((getstate inst).map (·.1)))]
 
 end FormulaicVerif.Engines.C04
